@@ -256,11 +256,68 @@ func (c *C) originKeys(v ssa.Value) (keys []string, unknown bool) {
 	seen := map[ssa.Value]bool{}
 	ks := map[string]bool{}
 	var walk func(v ssa.Value)
+	var walkSlice func(v ssa.Value)
+	walkSlice = func(v ssa.Value) {
+		if v == nil || seen[v] {
+			return
+		}
+		seen[v] = true
+		switch x := v.(type) {
+		case *ssa.Phi:
+			for _, e := range x.Edges {
+				walkSlice(e)
+			}
+		case *ssa.Slice:
+			walkSlice(x.X)
+		case *ssa.Call:
+			if bi, ok := x.Call.Value.(*ssa.Builtin); ok && bi.Name() == "append" && len(x.Call.Args) == 2 {
+				walkSlice(x.Call.Args[0])
+				// append(s, e): e sits in a one-element array that go/ssa slices
+				if sl, ok := x.Call.Args[1].(*ssa.Slice); ok {
+					if al, ok := sl.X.(*ssa.Alloc); ok && al.Referrers() != nil {
+						if _, isArr := al.Type().Underlying().(*types.Pointer).Elem().Underlying().(*types.Array); isArr {
+							for _, r := range *al.Referrers() {
+								if ia, ok := r.(*ssa.IndexAddr); ok && ia.Referrers() != nil {
+									for _, rr := range *ia.Referrers() {
+										if st, ok := rr.(*ssa.Store); ok && st.Addr == ssa.Value(ia) {
+											walk(st.Val)
+										}
+									}
+								}
+							}
+							return
+						}
+					}
+				}
+				walkSlice(x.Call.Args[1])
+				return
+			}
+			unknown = true
+		case *ssa.UnOp:
+			if al, ok := x.X.(*ssa.Alloc); ok && x.Op == token.MUL && al.Referrers() != nil {
+				for _, r := range *al.Referrers() {
+					if st, ok := r.(*ssa.Store); ok && st.Addr == ssa.Value(al) {
+						walkSlice(st.Val)
+					}
+				}
+				return
+			}
+			unknown = true
+		case *ssa.MakeSlice, *ssa.Const:
+		default:
+			unknown = true
+		}
+	}
 	walk = func(v ssa.Value) {
 		if v == nil || seen[v] {
 			return
 		}
 		seen[v] = true
+		if _, isSl := v.Type().Underlying().(*types.Slice); isSl {
+			seen[v] = false
+			walkSlice(v)
+			return
+		}
 		switch x := v.(type) {
 		case *ssa.Phi:
 			for _, e := range x.Edges {
@@ -284,6 +341,13 @@ func (c *C) originKeys(v ssa.Value) (keys []string, unknown bool) {
 					}
 				}
 				return
+			}
+			// an element of a local slice of containers: the origins of everything appended to it
+			if ia, ok := x.X.(*ssa.IndexAddr); ok && x.Op == token.MUL {
+				if _, isSl := ia.X.Type().Underlying().(*types.Slice); isSl {
+					walkSlice(ia.X)
+					return
+				}
 			}
 			// embedded part of a container (sortedSet.Btree): same origin as the enclosing container
 			if fa, ok := x.X.(*ssa.FieldAddr); ok && x.Op == token.MUL {
@@ -539,6 +603,11 @@ func (la *lockAnalysis) sites(fn *ssa.Function) []lockSite {
 			}
 			for j, arg := range ci.Common().Args {
 				tn, ok := c.containerType(arg.Type())
+				if !ok {
+					if sl, isSl := arg.Type().Underlying().(*types.Slice); isSl {
+						tn, ok = c.containerType(sl.Elem())
+					}
+				}
 				if !ok {
 					continue
 				}
